@@ -84,6 +84,7 @@ impl<'de> Read for SliceRead<'de> {
 			None => Err(DeError::new(
 				"All bytes have MSB set when decoding varint (Reached EOF)",
 			)),
+			Some((_, read)) if read > varint_max_size::<I>() => Err(varint_too_long()),
 			Some((val, read)) => {
 				self.slice = &self.slice[read..];
 				Ok(val)
@@ -181,6 +182,7 @@ impl<R: std::io::BufRead> Read for ReaderRead<R> {
 		// sub-optimal but also will trigger extremely rarely).
 		match I::decode_var(self.fill_buf().map_err(DeError::io)?) {
 			None => <Self as VarIntReader>::read_varint(self).map_err(DeError::io),
+			Some((_, read)) if read > varint_max_size::<I>() => Err(varint_too_long()),
 			Some((val, read)) => {
 				self.consume(read);
 				Ok(val)
@@ -235,6 +237,19 @@ impl<R: std::io::BufRead> std::io::BufRead for ReaderRead<R> {
 	fn consume(&mut self, amt: usize) {
 		self.reader.consume(amt)
 	}
+}
+
+/// Maximum number of bytes of the varint encoding of an `I`
+///
+/// This is the limit that the byte-by-byte decoding (`VarIntReader`, used at
+/// buffer refill boundaries) enforces, so the decoding from a slice has to
+/// enforce it as well, otherwise whether an over-long varint is accepted would
+/// depend on how the input happens to be split.
+fn varint_max_size<I>() -> usize {
+	(std::mem::size_of::<I>() * 8 + 7) / 7
+}
+fn varint_too_long() -> DeError {
+	DeError::new("Varint is longer than the maximum length for its type")
 }
 
 /// Largely internal trait for `Read` usage (probably don't use this directly)
